@@ -9,6 +9,7 @@ import (
 	"bytes"
 	"fmt"
 	"go/ast"
+	"go/build"
 	"go/importer"
 	"go/parser"
 	"go/token"
@@ -54,6 +55,12 @@ type Stats struct {
 type Weaver struct {
 	Sites []Site
 	Stats Stats
+	// ModuleDir is the root of the module being woven: go/build resolves
+	// module-local imports by running `go list` there.
+	ModuleDir string
+
+	fset *token.FileSet
+	imp  types.Importer
 }
 
 type edit struct {
@@ -83,7 +90,10 @@ func (w *Weaver) WeaveDir(dir, rel string, opt Options) error {
 
 // WeaveFiles instruments the named files of one package.
 func (w *Weaver) WeaveFiles(dir, rel string, names []string, opt Options) error {
-	fset := token.NewFileSet()
+	if w.fset == nil {
+		w.fset = token.NewFileSet()
+	}
+	fset := w.fset
 	var files []*ast.File
 	srcs := map[string][]byte{}
 	for _, n := range names {
@@ -102,8 +112,14 @@ func (w *Weaver) WeaveFiles(dir, rel string, names []string, opt Options) error 
 	var info *types.Info
 	if opt.MapRanges {
 		info = &types.Info{Types: map[ast.Expr]types.TypeAndValue{}}
+		if w.imp == nil {
+			if w.ModuleDir != "" {
+				build.Default.Dir = w.ModuleDir
+			}
+			w.imp = importer.ForCompiler(fset, "source", nil)
+		}
 		conf := types.Config{
-			Importer: importer.ForCompiler(fset, "source", nil),
+			Importer: w.imp,
 			Error:    func(error) {},
 		}
 		// all files of dir incl. ones we do not weave would be needed for a
